@@ -7,7 +7,7 @@ Import ListNotations.
 Open Scope N_scope.
 
 Definition effect_code (e : effect) : N :=
-  match e with WriteArgsJson => 1 | WriteOptionsJson => 2 | RaiseNonZeroExit => 3 | InsertRow => 4 | CommitIndex => 5 end.
+  match e with CloseLog => 6 | WriteArgsJson => 1 | WriteOptionsJson => 2 | RaiseNonZeroExit => 3 | InsertRow => 4 | CommitIndex => 5 end.
 
 Lemma finish_tie : forall rc ser ae oe hv,
   map effect_code (finish_execution rc ser ae oe hv) = gen_finish (negb (rc =? 0)) ser ae oe hv.
